@@ -44,6 +44,15 @@ class T:
         return txaio.create_future()
 
 
+_WIRE = JsonSerializer()
+
+
+def rx(sess, msg):
+    """what the router sends reaches the session the way it would on a wire: serialised and parsed again"""
+    data, _ = _WIRE.serialize(msg)
+    sess.onMessage(_WIRE.unserialize(data)[0])
+
+
 class Sess(ApplicationSession):
     errors = None
 
@@ -129,7 +138,7 @@ def one(dir_, layout, fault, shape, pos, rng):
             for i, (h, u) in enumerate(((h1, uri), (h2, uri2))):
                 B.subscribe(h, u)
                 fw.settle()
-                B.onMessage(message.Subscribed(tb.sent[-1][0].request, 100 + i))
+                rx(B, message.Subscribed(tb.sent[-1][0].request, 100 + i))
                 fw.settle()
             A.publish(uri, *args, **kwargs)
             fw.settle()
@@ -146,7 +155,7 @@ def one(dir_, layout, fault, shape, pos, rng):
                 ev = message.Event(sub, 555, payload=payload, enc_algo=pm.enc_algo, enc_key=pm.enc_key, enc_serializer=pm.enc_serializer)
             else:
                 ev = message.Event(sub, 555, args=pm.args, kwargs=pm.kwargs)
-            B.onMessage(ev)
+            rx(B, ev)
             fw.settle()
             calls = got.get("calls", [])
             if not calls:
@@ -163,7 +172,7 @@ def one(dir_, layout, fault, shape, pos, rng):
                 return CallResult("final", fin=1)
             B.register(epp, uri, options=RegisterOptions(details_arg="details"))
             fw.settle()
-            B.onMessage(message.Registered(tb.sent[-1][0].request, 200))
+            rx(B, message.Registered(tb.sent[-1][0].request, 200))
             fw.settle()
             del tb.sent[:]
 
@@ -178,7 +187,7 @@ def one(dir_, layout, fault, shape, pos, rng):
                 inv = message.Invocation(900, 200, payload=cm.payload, enc_algo=cm.enc_algo, enc_key=cm.enc_key, enc_serializer=cm.enc_serializer, receive_progress=True)
             else:
                 inv = message.Invocation(900, 200, args=cm.args, kwargs=cm.kwargs, receive_progress=True)
-            B.onMessage(inv)
+            rx(B, inv)
             fw.settle()
             ys = [m for m, _ in tb.sent if isinstance(m, message.Yield)]
             if len(ys) != 2 or not ys[0].progress or ys[1].progress:
@@ -197,7 +206,7 @@ def one(dir_, layout, fault, shape, pos, rng):
                             A.set_payload_codec(kx)
                     fwd = message.Result(cm.request, payload=rp, enc_algo=rm.enc_algo, enc_key=rm.enc_key, enc_serializer=rm.enc_serializer, progress=(k == 0)) \
                         if rp is not None else message.Result(cm.request, args=rm.args, kwargs=rm.kwargs, progress=(k == 0))
-                    A.onMessage(fwd)
+                    rx(A, fwd)
                     fw.settle()
                     A.set_payload_codec(good)
                 pg = got.get("prog", [])
@@ -223,7 +232,7 @@ def one(dir_, layout, fault, shape, pos, rng):
             for i, (e, u) in enumerate(((ep, uri), (ep2, uri2))):
                 B.register(e, u)
                 fw.settle()
-                B.onMessage(message.Registered(tb.sent[-1][0].request, 200 + i))
+                rx(B, message.Registered(tb.sent[-1][0].request, 200 + i))
                 fw.settle()
             del tb.sent[:]
             fut = A.call(uri, *args, **kwargs)
@@ -243,7 +252,7 @@ def one(dir_, layout, fault, shape, pos, rng):
                 inv = message.Invocation(900, reg, payload=payload, enc_algo=cm.enc_algo, enc_key=cm.enc_key, enc_serializer=cm.enc_serializer)
             else:
                 inv = message.Invocation(900, reg, args=cm.args, kwargs=cm.kwargs)
-            B.onMessage(inv)
+            rx(B, inv)
             fw.settle()
             replies = [m for m, _ in tb.sent if isinstance(m, (message.Yield, message.Error))]
             ecalls = got.get("calls", [])
@@ -279,7 +288,7 @@ def one(dir_, layout, fault, shape, pos, rng):
                         message.Error(message.Call.MESSAGE_TYPE, cm.request, err_uri, args=rm.args, kwargs=rm.kwargs)
                 if dir_ == "result" and fault == "uriswap":
                     pass      # a RESULT has no URI of its own: the call's procedure is the envelope; not applicable
-                A.onMessage(fwd)
+                rx(A, fwd)
                 fw.settle()
             if "ok" in res:
                 r = res["ok"]
